@@ -62,6 +62,7 @@ type Replay struct {
 	Property  string   `json:"property"`
 	Harness   string   `json:"harness"`
 	Config    string   `json:"config,omitempty"`
+	Tier      string   `json:"tier,omitempty"`
 	Seed      uint64   `json:"seed"`
 	Run       uint64   `json:"run"`
 	Decisions []int    `json:"decisions"`
@@ -112,6 +113,17 @@ func envU(name string, def uint64) uint64 {
 		}
 	}
 	return def
+}
+
+// Thorough reports whether the check runs in the thorough tier (VERIF_TIER=thorough): harnesses widen their bounds.
+func Thorough() bool { return os.Getenv("VERIF_TIER") == "thorough" }
+
+// Bound returns the quick or the thorough value of a workload bound.
+func Bound(quick, thorough int) int {
+	if Thorough() {
+		return thorough
+	}
+	return quick
 }
 
 // HarnessConfig returns the free-form configuration string of the check (VERIF_CONFIG).
